@@ -41,6 +41,8 @@ pub struct ExploreStats {
     pub points: u64,
     pub steps: u64,
     pub max_depth: usize,
+    /// most steps taken by one execution (the step cap ends an execution as a livelock)
+    pub max_steps: u64,
     pub max_spent: u32,
     pub capped: bool,
     pub distinct_traces: HashSet<u64>,
@@ -126,6 +128,7 @@ pub fn account(stats: &mut ExploreStats, res: &RunResult, node: &Node) {
     stats.points += res.points;
     stats.steps += res.steps;
     stats.max_depth = stats.max_depth.max(res.decisions.len());
+    stats.max_steps = stats.max_steps.max(res.steps);
     stats.max_spent = stats.max_spent.max(node.spent);
     stats.distinct_traces.insert(res.trace_hash);
     if res.conflicts > 0 {
